@@ -12,7 +12,25 @@ open Iscp
 theorem C20.flush_barrier (p : Policy) (rev : List (DataID × Nat)) (evs : List Ev) (d : DataID) :
     let s := run (init p rev) (evs ++ [.flush])
     s.buf = [] ∧ s.bufCount = 0 ∧ cutPoints d s = written d evs ∧ ∀ c ∈ s.sent, c.seq ≤ s.seq := by
-  sorry
+  intro s
+  have hs : s = cut (run (init p rev) evs) := by
+    show run _ _ = _
+    rw [run_append]; rfl
+  have hi : Inv s := Inv_run_init p rev _
+  have hb : s.buf = [] := by rw [hs]; exact cut_buf _
+  refine ⟨hb, ?_, ?_, ?_⟩
+  · rw [hi.cnt, hb]; rfl
+  · have hc : cutPoints d s ++ bufPoints d s = written d (evs ++ [.flush]) := C01.conservation p rev (evs ++ [.flush]) d
+    have hbp : bufPoints d s = [] := by
+      show bufPts d s.buf = []
+      rw [hb]; rfl
+    rw [hbp, List.append_nil, written_eq, List.flatMap_append] at hc
+    rw [hc, written_eq]
+    simp [wr]
+  · intro c hc
+    have hm : c.seq ∈ s.sent.map (·.seq) := List.mem_map_of_mem hc
+    rw [hi.seqs, List.mem_range'_1] at hm
+    omega
 
 def noFlushClose : List Ev → Bool
   | [] => true
@@ -20,10 +38,16 @@ def noFlushClose : List Ev → Bool
   | .closeFlush :: _ => false
   | _ :: r => noFlushClose r
 
+theorem noFlushClose_eq (evs : List Ev) : noFlushClose evs = evs.all nfc := by
+  induction evs with
+  | nil => rfl
+  | cons e r ih => cases e <;> simp [noFlushClose, nfc, ih]
+
 /-- NONE policy: nothing is cut (hence nothing transmitted) until Flush or Close -/
 theorem C20.none_policy (rev : List (DataID × Nat)) (evs : List Ev) (h : noFlushClose evs = true) :
     (run (init .none rev) evs).sent = [] := by
-  sorry
+  rw [noFlushClose_eq] at h
+  exact none_run evs (init .none rev) rfl h
 
 /-- SIZE policy: an accept cuts a chunk exactly when the buffered payload (including this write) exceeds the threshold,
     and the chunk then takes everything buffered -/
@@ -32,22 +56,40 @@ theorem C20.size_policy (s : St) (n : Nat) (d : DataID) (ps : List Point) (hp : 
         (accept s d ps).buf = [] ∧ (accept s d ps).sent.length = s.sent.length + 1 ∧
         (accept s d ps).sendHook.getLast? = some (s.seq + 1, toGroups (bufAdd s.buf d ps))) ∧
     (s.bufPayload + payloadLen ps ≤ n → (accept s d ps).sent = s.sent ∧ (accept s d ps).buf = bufAdd s.buf d ps) := by
-  sorry
+  have hf : ∀ sz, s.policy.isFlush sz = decide (sz > n) := by
+    intro sz
+    rcases hp with hp | hp <;> rw [hp] <;> rfl
+  constructor
+  · intro h
+    exact accept_cut s d ps (by rw [hf]; exact decide_eq_true h)
+  · intro h
+    exact accept_nocut s d ps (by rw [hf]; exact decide_eq_false (by omega))
 
 /-- IMMEDIATE policy: every write is cut on its own -/
 theorem C20.immediate_policy (rev : List (DataID × Nat)) (evs : List Ev) (d : DataID) (ps : List Point) :
     let s := run (init .immediate rev) evs
     s.buf = [] ∧ (accept s d ps).sent.length = s.sent.length + 1 ∧ (accept s d ps).sendHook.getLast? = some (s.seq + 1, [⟨d, ps⟩]) := by
-  sorry
+  intro s
+  obtain ⟨hp, hb⟩ := imm_run evs (init .immediate rev) rfl rfl
+  have hc := accept_cut s d ps (by rw [hp]; rfl)
+  refine ⟨hb, hc.2.1, ?_⟩
+  rw [hc.2.2, hb]; rfl
 
 /-- INTERVAL policies: every tick empties the buffer (data is never held across a tick) -/
 theorem C20.interval_policy (s : St) (h : s.policy.ticks = true) : (tick s).buf = [] := by
-  sorry
+  unfold tick
+  rw [if_pos h]
+  exact cut_buf s
 
 def acceptedCount : List Ev → Nat
   | [] => 0
   | .accept _ ps :: r => ps.length + acceptedCount r
   | _ :: r => acceptedCount r
+
+theorem acceptedCount_eq (evs : List Ev) : acceptedCount evs = (evs.map acc).sum := by
+  induction evs with
+  | nil => rfl
+  | cons e r ih => cases e <;> simp [acceptedCount, acc, ih]
 
 /-- SNAPSHOT CONSERVATION: in every reachable state points reported sent plus points reported buffered equal the points
     accepted (never invented, never double counted), and the counters agree with the contents -/
@@ -56,12 +98,19 @@ theorem C20.snapshot_conservation (p : Policy) (rev : List (DataID × Nat)) (evs
     s.total + s.bufCount = acceptedCount evs ∧
     s.total = (s.sendHook.map (pointCount ·.2)).sum ∧
     s.bufCount = pointCount (toGroups s.buf) := by
-  sorry
+  intro s
+  have hi : Inv s := Inv_run_init p rev evs
+  refine ⟨?_, hi.total, hi.cnt⟩
+  have hc := count_run evs (init p rev)
+  have h0 : (init p rev).total + (init p rev).bufCount = 0 := rfl
+  rw [h0, Nat.zero_add] at hc
+  rw [acceptedCount_eq]
+  exact hc
 
 /-- no chunk is ever cut without a point group, and the groups of a chunk have pairwise distinct data ids -/
 theorem C20.no_empty_cut (p : Policy) (rev : List (DataID × Nat)) (evs : List Ev) :
-    ∀ e ∈ (run (init p rev) evs).sendHook, e.2 ≠ [] ∧ (e.2.map (·.id)).Nodup := by
-  sorry
+    ∀ e ∈ (run (init p rev) evs).sendHook, e.2 ≠ [] ∧ (e.2.map (·.id)).Nodup :=
+  (Inv_run_init p rev evs).groups
 
 example : (run (init .none []) [.accept 1 [⟨1, [1]⟩], .tick, .accept 2 [], .ack [] [], .flush]).sent.length = 1 := by decide
 
